@@ -29,10 +29,10 @@ func pebbleFuncs(c *Ctx) []*ssa.Function {
 
 // dbMuHeldAtEntry: calling contexts documented to hold DB.mu.
 var dbMuHeldAtEntry = map[string]string{
-	"closure stored to complit.InProgressCompactionsFn": "invoked by UpdateVersionLocked after it re-acquired DB.mu",
+	"closure stored to complit.InProgressCompactionsFn":     "invoked by UpdateVersionLocked after it re-acquired DB.mu",
 	"closure passed to p.(*versionSet).UpdateVersionLocked": "UpdateVersionLocked is called with DB.mu held and invokes its update function before releasing it (comment on UpdateVersionLocked)",
 	"closure passed to p.(*commitPipeline).AllocateSeqNum":  "the prepare callback of AllocateSeqNum; the ingest/excise callers take DB.mu inside it",
-	"closure stored in map formatMajorVersionMigrations": "all format major version migrations are invoked by ratchetFormatMajorVersionLocked with DB.mu held (comment on the map)",
+	"closure stored in map formatMajorVersionMigrations":    "all format major version migrations are invoked by ratchetFormatMajorVersionLocked with DB.mu held (comment on the map)",
 }
 
 func runC03(c *Ctx) {
